@@ -28,10 +28,11 @@ func monitor(evs []Ev) []Problem {
 	executed := map[int]int{}
 	running := 0
 	lastPeeked := -1
+	lastBeforeArm := int64(0)
 	var tmr struct {
-		dur, created int64
-		forID        int
-		ok           bool
+		dur, created, window int64 // window: clock value when the loop was about to read the clock
+		forID                int
+		ok                   bool
 	}
 	closeCalled, closeRet, closeRet2 := false, false, false
 	afterClose := func() string {
@@ -48,8 +49,10 @@ func monitor(evs []Ev) []Problem {
 			lastEnqOut[e.ID] = e.Out
 		case "deq":
 			delete(live, e.Key)
+		case "beforearm":
+			lastBeforeArm = e.Now
 		case "newtimer":
-			tmr.dur, tmr.created, tmr.forID, tmr.ok = e.At, e.Now, lastPeeked, lastPeeked >= 0
+			tmr.dur, tmr.created, tmr.window, tmr.forID, tmr.ok = e.At, e.Now, lastBeforeArm, lastPeeked, lastPeeked >= 0
 		case "peeked":
 			if !e.None {
 				lastPeeked = e.ID
@@ -131,9 +134,11 @@ func monitor(evs []Ev) []Problem {
 					// The loop is parked on a timer. If the clock advanced between the loop's Now() and its
 					// NewTimer() (lag > 0, observed directly: duration and creation time of the timer), the
 					// timer is late by exactly that much; the item is then served at the timer, not before.
+					// The lateness of the timer must not exceed the clock advance the harness itself observed
+					// between the hook just before the loop's Now() and the creation of the timer.
 					r := items[tmr.forID]
-					lag := tmr.created - (r.at - tmr.dur)
-					if lag > 0 && tmr.created+tmr.dur > e.Now && r.at <= items[lid].at {
+					lag := tmr.created + tmr.dur - r.at
+					if lag > 0 && lag <= tmr.created-tmr.window && tmr.created+tmr.dur > e.Now && r.at <= items[lid].at {
 						add("late-after-clock-advance-between-now-and-newtimer", "event %d: id=%d (at %d) is due at clock %d but the loop sleeps until %d: its timer (%d ns, for id=%d at %d) was created at clock %d, %d ns after it had read the clock", i, lid, items[lid].at, e.Now, tmr.created+tmr.dur, tmr.dur, tmr.forID, r.at, tmr.created, lag)
 						continue
 					}
